@@ -737,4 +737,311 @@ theorem Valid_append (crc : List Nat → Nat) (ser : Entry → List Nat) (de : L
   | cons s a ih =>
     simp only [List.cons_append, Valid, run_cons, ih, and_assoc]
 
+
+/-! ## what comes back after a restart -/
+
+theorem mLookup_mErase_ne {α : Type} (k x : Nat) (m : List (Nat × α)) (h : k ≠ x) :
+    mLookup x (mErase k m) = mLookup x m := by
+  induction m with
+  | nil => rfl
+  | cons p r ih =>
+    obtain ⟨k', v'⟩ := p
+    by_cases hk : k' = k
+    · subst hk
+      have : mErase k' ((k', v') :: r) = mErase k' r := by simp [mErase]
+      rw [this, ih]
+      simp [mLookup, h]
+    · have : mErase k ((k', v') :: r) = (k', v') :: mErase k r := by simp [mErase, hk]
+      rw [this]
+      simp only [mLookup, ih]
+
+theorem mLookup_mInsert {α : Type} (k x : Nat) (v : α) (m : List (Nat × α)) :
+    mLookup x (mInsert k v m) = if k = x then some v else mLookup x m := by
+  simp only [mInsert, mLookup]
+  split
+  · rfl
+  · rename_i h; exact mLookup_mErase_ne k x m h
+
+/-- the transaction `x` after `restoreAll`: the restored image of one of the listed records for
+    `x`, or — when none is listed — whatever was there before -/
+theorem lookup_restoreAll (rs : List RecTx) (ph : Phase) (now : Nat) (p : List (Nat × Tx)) (x : Nat) :
+    (∃ r ∈ rs, r.tx = x ∧ mLookup x (restoreAll rs ph now p) = some (restoreTx r ph now))
+    ∨ ((∀ r ∈ rs, r.tx ≠ x) ∧ mLookup x (restoreAll rs ph now p) = mLookup x p) := by
+  unfold restoreAll
+  induction rs generalizing p with
+  | nil => right; simp
+  | cons r rs ih =>
+    simp only [List.foldl_cons]
+    rcases ih (mInsert r.tx (restoreTx r ph now) p) with ⟨r', hr', hx, hl⟩ | ⟨hn, hl⟩
+    · left; exact ⟨r', by simp [hr'], hx, hl⟩
+    · by_cases hrx : r.tx = x
+      · left
+        refine ⟨r, by simp, hrx, ?_⟩
+        rw [hl, mLookup_mInsert]; simp [hrx]
+      · right
+        refine ⟨?_, ?_⟩
+        · intro r' hr'
+          simp only [List.mem_cons] at hr'
+          rcases hr' with rfl | hr'
+          · exact hrx
+          · exact hn r' hr'
+        · rw [hl, mLookup_mInsert]; simp [hrx]
+
+theorem mem_classify (ip : List (Nat × InProg)) (ph : Phase) (r : RecTx) :
+    r ∈ classify ip ph ↔ ∃ i, (r.tx, i) ∈ ip ∧ i.phase = ph ∧ r.parts = i.parts ∧ r.votes = i.votes := by
+  simp only [classify, List.mem_map, List.mem_filter, decide_eq_true_eq]
+  constructor
+  · rintro ⟨p, ⟨hp, hph⟩, rfl⟩; exact ⟨p.2, hp, hph, rfl, rfl⟩
+  · rintro ⟨i, hi, hph, h1, h2⟩
+    refine ⟨(r.tx, i), ⟨hi, hph⟩, ?_⟩
+    cases r; simp_all
+
+/-- membership in the three map operations -/
+theorem mem_mErase {α : Type} (k x : Nat) (v : α) (m : List (Nat × α)) :
+    (x, v) ∈ mErase k m ↔ (x, v) ∈ m ∧ x ≠ k := by
+  simp [mErase, List.mem_filter]
+
+theorem mem_mInsert {α : Type} (k x : Nat) (v w : α) (m : List (Nat × α)) :
+    (x, v) ∈ mInsert k w m ↔ (x = k ∧ v = w) ∨ ((x, v) ∈ m ∧ x ≠ k) := by
+  simp [mInsert, mem_mErase]
+
+theorem mem_mModify {α : Type} (k x : Nat) (f : α → α) (v : α) (m : List (Nat × α)) :
+    (x, v) ∈ mModify k f m ↔ ∃ v0, (x, v0) ∈ m ∧ v = if x = k then f v0 else v0 := by
+  simp only [mModify, List.mem_map]
+  constructor
+  · rintro ⟨⟨a, b⟩, hp, h⟩
+    by_cases hk : a = k
+    · simp only [hk, if_true, Prod.mk.injEq] at h
+      obtain ⟨rfl, rfl⟩ := h
+      exact ⟨b, by rw [← hk]; exact hp, by simp⟩
+    · simp only [hk, if_false, Prod.mk.injEq] at h
+      obtain ⟨rfl, rfl⟩ := h
+      exact ⟨b, hp, by simp [hk]⟩
+  · rintro ⟨v0, hp, rfl⟩
+    refine ⟨(x, v0), hp, ?_⟩
+    by_cases hk : x = k <;> simp [hk]
+
+theorem pushVote_phase (shard : Nat) (v : VoteKind) (ip : InProg) : (pushVote shard v ip).phase = ip.phase := by
+  unfold pushVote; split <;> rfl
+
+/-- a transaction the scan does not see as `Preparing` has a PhaseChange record in the log -/
+theorem scan_phase_logged (L : List Entry) :
+    ∀ x ip, (x, ip) ∈ (scan L).inProgress → ip.phase ≠ .preparing →
+      ∃ f t, Entry.phaseChange x f t ∈ L := by
+  induction L using snoc_induction with
+  | hnil => intro x ip h; simp [scan_nil] at h
+  | hsnoc L e ih =>
+    intro x ip hm hp
+    rw [scan_snoc] at hm
+    have lift : (∃ f t, Entry.phaseChange x f t ∈ L) → ∃ f t, Entry.phaseChange x f t ∈ L ++ [e] := by
+      rintro ⟨f, t, h⟩; exact ⟨f, t, List.mem_append_left _ h⟩
+    cases e with
+    | txBegin tx parts =>
+      simp only [scanStep, mem_mInsert] at hm
+      rcases hm with ⟨_, rfl⟩ | ⟨hm, _⟩
+      · exact absurd rfl hp
+      · exact lift (ih x ip hm hp)
+    | prepareVote tx shard v =>
+      simp only [scanStep, mem_mModify] at hm
+      obtain ⟨i0, hm, rfl⟩ := hm
+      apply lift; apply ih x i0 hm
+      split at hp
+      · rwa [pushVote_phase] at hp
+      · exact hp
+    | phaseChange tx f t =>
+      simp only [scanStep, mem_mModify] at hm
+      obtain ⟨i0, hm, rfl⟩ := hm
+      by_cases hk : x = tx
+      · subst hk; exact ⟨f, t, by simp⟩
+      · simp only [hk, if_false] at hp
+        exact lift (ih x i0 hm hp)
+    | txComplete tx o =>
+      simp only [scanStep, scanComplete, mem_mErase] at hm
+      exact lift (ih x ip hm.1 hp)
+    | lockRelease tx h => exact lift (ih x ip hm hp)
+    | allLocksReleased tx => exact lift (ih x ip hm hp)
+    | abortIntent tx r sh => exact lift (ih x ip hm hp)
+
+/-- the pending map of a restarted coordinator, read off the scan of the surviving log -/
+theorem restart_pending (cfg : Cfg) (L : List Entry) (now : Nat) (x : Nat) (tx : Tx)
+    (h : mLookup x (restartLog cfg L now).pending = some tx) :
+    ∃ ip, (x, ip) ∈ (scan L).inProgress
+      ∧ (ip.phase = .prepared ∨ ip.phase = .committing ∨ ip.phase = .aborting)
+      ∧ tx = restoreTx ⟨x, ip.parts, ip.votes⟩ ip.phase now := by
+  unfold restartLog recoverFromWal at h
+  simp only [fromEntries, recoveryOf] at h
+  have fin : ∀ (ph : Phase) (r : RecTx), r ∈ classify (scan L).inProgress ph → r.tx = x →
+      tx = restoreTx r ph now → (ph = .prepared ∨ ph = .committing ∨ ph = .aborting) →
+      ∃ ip, (x, ip) ∈ (scan L).inProgress
+        ∧ (ip.phase = .prepared ∨ ip.phase = .committing ∨ ip.phase = .aborting)
+        ∧ tx = restoreTx ⟨x, ip.parts, ip.votes⟩ ip.phase now := by
+    intro ph r hr hx ht hph
+    obtain ⟨i, hi, hip, h1, h2⟩ := (mem_classify _ _ _).mp hr
+    refine ⟨i, by rw [← hx]; exact hi, by rw [hip]; exact hph, ?_⟩
+    rw [ht, hip]
+    cases r; simp_all
+  rcases lookup_restoreAll (classify (scan L).inProgress .aborting) .aborting now _ x with
+    ⟨r, hr, hx, hl⟩ | ⟨_, hl⟩
+  · rw [hl] at h; cases h
+    exact fin _ r hr hx rfl (Or.inr (Or.inr rfl))
+  · rw [hl] at h
+    rcases lookup_restoreAll (classify (scan L).inProgress .committing) .committing now _ x with
+      ⟨r, hr, hx, hl⟩ | ⟨_, hl⟩
+    · rw [hl] at h; cases h
+      exact fin _ r hr hx rfl (Or.inr (Or.inl rfl))
+    · rw [hl] at h
+      rcases lookup_restoreAll (classify (scan L).inProgress .prepared) .prepared now _ x with
+        ⟨r, hr, hx, hl⟩ | ⟨_, hl⟩
+      · rw [hl] at h; cases h
+        exact fin _ r hr hx rfl (Or.inl rfl)
+      · rw [hl] at h; simp [mLookup] at h
+
+
+theorem mKeys_mErase_eq {α : Type} (k : Nat) (m : List (Nat × α)) :
+    mKeys (mErase k m) = (mKeys m).filter (fun y => decide (y ≠ k)) := by
+  induction m with
+  | nil => rfl
+  | cons p r ih =>
+    obtain ⟨a, b⟩ := p
+    by_cases h : a = k
+    · have : mErase k ((a, b) :: r) = mErase k r := by simp [mErase, h]
+      rw [this, ih]; simp [mKeys, h]
+    · have : mErase k ((a, b) :: r) = (a, b) :: mErase k r := by simp [mErase, h]
+      rw [this]; simp only [mKeys, List.map_cons] at ih ⊢
+      rw [ih]; simp [h]
+
+theorem nodup_mErase {α : Type} (k : Nat) (m : List (Nat × α)) (h : (mKeys m).Nodup) :
+    (mKeys (mErase k m)).Nodup := by
+  rw [mKeys_mErase_eq]; exact h.filter _
+
+theorem nodup_mInsert {α : Type} (k : Nat) (v : α) (m : List (Nat × α)) (h : (mKeys m).Nodup) :
+    (mKeys (mInsert k v m)).Nodup := by
+  have h1 := nodup_mErase k m h
+  have h2 : k ∉ mKeys (mErase k m) := by rw [mem_mKeys_mErase]; simp
+  simp only [mInsert, mKeys, List.map_cons] at h1 h2 ⊢
+  exact List.nodup_cons.mpr ⟨h2, h1⟩
+
+theorem nodup_scan (L : List Entry) : (mKeys (scan L).inProgress).Nodup := by
+  induction L using snoc_induction with
+  | hnil => simp [scan_nil, mKeys]
+  | hsnoc L e ih =>
+    rw [scan_snoc]
+    cases e with
+    | txBegin tx parts => exact nodup_mInsert _ _ _ ih
+    | prepareVote tx shard v => simp only [scanStep, mKeys_mModify]; exact ih
+    | phaseChange tx f t => simp only [scanStep, mKeys_mModify]; exact ih
+    | txComplete tx o => exact nodup_mErase _ _ ih
+    | lockRelease tx h => exact ih
+    | allLocksReleased tx => exact ih
+    | abortIntent tx r sh => exact ih
+
+theorem mem_unique_of_nodup {α : Type} (m : List (Nat × α)) (h : (mKeys m).Nodup) (x : Nat) (v w : α)
+    (hv : (x, v) ∈ m) (hw : (x, w) ∈ m) : v = w := by
+  induction m with
+  | nil => simp at hv
+  | cons p r ih =>
+    obtain ⟨a, b⟩ := p
+    simp only [mKeys, List.map_cons, List.nodup_cons] at h
+    simp only [List.mem_cons, Prod.mk.injEq] at hv hw
+    have key : ∀ u, (x, u) ∈ r → x ∈ List.map (fun p => p.1) r := fun u hu => List.mem_map.mpr ⟨(x, u), hu, rfl⟩
+    rcases hv with ⟨rfl, rfl⟩ | hv <;> rcases hw with ⟨hx, rfl⟩ | hw
+    · rfl
+    · exact absurd (key w hw) h.1
+    · subst hx; exact absurd (key v hv) h.1
+    · exact ih h.2 hv hw
+
+/-- **Prepared transactions come back.**  Every transaction the scan of the surviving log holds as
+    `Prepared` is pending after the restart, in phase `Prepared`, with the participants and votes
+    of the scan, a fresh start time and the 5000 ms default timeout. -/
+theorem restart_prepared (cfg : Cfg) (L : List Entry) (now : Nat) (x : Nat) (ip : InProg)
+    (hm : (x, ip) ∈ (scan L).inProgress) (hp : ip.phase = .prepared) :
+    mLookup x (restartLog cfg L now).pending = some (restoreTx ⟨x, ip.parts, ip.votes⟩ .prepared now) := by
+  have nd := nodup_scan L
+  have other : ∀ (ph : Phase), ph ≠ .prepared → ∀ r ∈ classify (scan L).inProgress ph, r.tx ≠ x := by
+    intro ph hph r hr hx
+    obtain ⟨i, hi, hip, _, _⟩ := (mem_classify _ _ _).mp hr
+    rw [hx] at hi
+    have := mem_unique_of_nodup _ nd x i ip hi hm
+    rw [this, hp] at hip
+    exact hph hip.symm
+  unfold restartLog recoverFromWal
+  simp only [fromEntries, recoveryOf]
+  rcases lookup_restoreAll (classify (scan L).inProgress .aborting) .aborting now
+      (restoreAll (classify (scan L).inProgress .committing) .committing now
+        (restoreAll (classify (scan L).inProgress .prepared) .prepared now [])) x with ⟨r, hr, hx, _⟩ | ⟨_, hl⟩
+  · exact absurd hx (other .aborting (by decide) r hr)
+  · rw [hl]
+    rcases lookup_restoreAll (classify (scan L).inProgress .committing) .committing now
+        (restoreAll (classify (scan L).inProgress .prepared) .prepared now []) x with ⟨r, hr, hx, _⟩ | ⟨_, hl⟩
+    · exact absurd hx (other .committing (by decide) r hr)
+    · rw [hl]
+      rcases lookup_restoreAll (classify (scan L).inProgress .prepared) .prepared now [] x with
+        ⟨r, hr, hx, hl⟩ | ⟨hn, _⟩
+      · rw [hl]
+        obtain ⟨i, hi, _, h1, h2⟩ := (mem_classify _ _ _).mp hr
+        rw [hx] at hi
+        have := mem_unique_of_nodup _ nd x i ip hi hm
+        subst this
+        cases r; simp_all
+      · exfalso
+        exact hn ⟨x, ip.parts, ip.votes⟩ ((mem_classify _ _ _).mpr ⟨ip, hm, hp, rfl, rfl⟩) rfl
+
+theorem mLookup_ne_none_of_mem_keys {α : Type} (k : Nat) (m : List (Nat × α)) (h : k ∈ mKeys m) :
+    mLookup k m ≠ none := by
+  induction m with
+  | nil => simp [mKeys] at h
+  | cons p r ih =>
+    obtain ⟨a, b⟩ := p
+    simp only [mLookup]
+    split
+    · simp
+    · rename_i hne
+      simp only [mKeys, List.map_cons, List.mem_cons] at h
+      rcases h with h | h
+      · exact absurd h.symm hne
+      · exact ih h
+
+/-- the votes the scan keeps never hold a shard twice (so `restore_tx` never overwrites a vote) -/
+theorem scan_votes_one_per_shard (L : List Entry) :
+    ∀ x ip, (x, ip) ∈ (scan L).inProgress → (mKeys ip.votes).Nodup := by
+  induction L using snoc_induction with
+  | hnil => intro x ip h; simp [scan_nil] at h
+  | hsnoc L e ih =>
+    intro x ip hm
+    rw [scan_snoc] at hm
+    cases e with
+    | txBegin tx parts =>
+      simp only [scanStep, mem_mInsert] at hm
+      rcases hm with ⟨_, rfl⟩ | ⟨hm, _⟩
+      · simp [mKeys]
+      · exact ih x ip hm
+    | prepareVote tx shard v =>
+      simp only [scanStep, mem_mModify] at hm
+      obtain ⟨i0, hm, rfl⟩ := hm
+      have h0 := ih x i0 hm
+      split
+      · unfold pushVote
+        split
+        · rename_i hc
+          have hnone : shard ∉ mKeys i0.votes := by
+            intro hin
+            have := mLookup_ne_none_of_mem_keys shard i0.votes hin
+            exact this (by simpa using hc.2)
+          simp only [mKeys, List.map_append, List.map_cons, List.map_nil] at h0 hnone ⊢
+          exact List.nodup_append.mpr ⟨h0, by simp, by
+            intro a ha b hb; simp at hb; subst hb; intro hab; subst hab; exact hnone ha⟩
+        · exact h0
+      · exact h0
+    | phaseChange tx f t =>
+      simp only [scanStep, mem_mModify] at hm
+      obtain ⟨i0, hm, rfl⟩ := hm
+      have := ih x i0 hm
+      split <;> exact this
+    | txComplete tx o =>
+      simp only [scanStep, scanComplete, mem_mErase] at hm
+      exact ih x ip hm.1
+    | lockRelease tx h => exact ih x ip hm
+    | allLocksReleased tx => exact ih x ip hm
+    | abortIntent tx r sh => exact ih x ip hm
+
 end Neumann.TxWal
